@@ -14,7 +14,7 @@ import (
 // ---- scripted randomness source (same semantics as Model.SM2.readFull's script) -----------------
 
 type scriptItem struct {
-	kind byte // 'd', 'f', 'z'
+	kind byte // 'd' data, 'f' a Read returning (0, error), 'z' a Read returning (0, nil), 'e' data whose last byte comes TOGETHER with an error (one-shot: later items are delivered normally)
 	data []byte
 }
 
@@ -35,6 +35,15 @@ func (r *scriptReader) Read(p []byte) (int, error) {
 	case 'z':
 		r.items = r.items[1:]
 		return 0, nil
+	case 'e':
+		n := copy(p, it.data)
+		it.data = it.data[n:]
+		r.consumed += n
+		if len(it.data) == 0 {
+			r.items = r.items[1:]
+			return n, errors.New("scripted failure delivered with data")
+		}
+		return n, nil
 	}
 	n := copy(p, it.data)
 	it.data = it.data[n:]
@@ -54,6 +63,11 @@ func scriptString(items []scriptItem) string {
 		switch it.kind {
 		case 'd':
 			parts[i] = fmt.Sprintf("d%x", it.data)
+		case 'e':
+			// for the model and the specification "k bytes together with an error" is k bytes followed by a failing
+			// Read (io.ReadFull stops at the error either way); generators keep such an item from ending exactly at
+			// a 32-byte draw boundary, where io.ReadFull would drop the error
+			parts[i] = fmt.Sprintf("d%x,f", it.data)
 		default:
 			parts[i] = string(it.kind)
 		}
